@@ -194,6 +194,8 @@ def search(chk, broken):
     pbc.PreferredUnits.defaults()
     # --- names and aliases, any case, with numeric prefix, radian included
     for u in U:
+        if chk.over():
+            break
         for s in case_variants(rng, u.name):
             evals += 1
             if _parse_unit(' ' + s) is not u:
@@ -207,12 +209,16 @@ def search(chk, broken):
         if not okq:
             chk.failures.append(Failure(f'value-string:{u.name}', f'"2 {u.name.upper()}" does not parse to 2 {u.name}', {'op': 'value', 'unit': u.name}))
     for group, u in pbc.UnitAliases.items():
+        if chk.over():
+            break
         for a in group:
             evals += 1
             if _parse_unit(a.upper()) is not u or _parse_unit(a) is not u:
                 chk.failures.append(Failure(f'alias:{a}', f'alias {a!r} does not resolve to {u!r}', {'op': 'alias', 'alias': a}))
     slots = list(pbc.PreferredUnits.__dataclass_fields__)
     for bad in ('set', 'defaults', 'parsec', '', 'mro'):
+        if chk.over():
+            break
         before = [getattr(pbc.PreferredUnits, f) for f in slots]
         try:
             pbc.PreferredUnits.set(distance=bad)
@@ -231,6 +237,8 @@ def search(chk, broken):
     n = 6 if (chk.tier == 'quick' and not broken) else 200
     dm = pbc.DragModel(0.3, pbc.TableG7)
     for _ in range(n):
+        if chk.over():
+            break
         evals += 1
         shot = pbc.Shot(pbc.Weapon(2), pbc.Ammo(dm, U.FPS(rng.uniform(1500, 3000))), look_angle=U.Degree(rng.uniform(0, 5)))
         steps = {}
